@@ -700,7 +700,7 @@ func zvC28Configs(thorough bool) []zvC28Cfg {
 	return out
 }
 
-var zvC28Required = []string{"table_nonempty_checked", "table_multi_path_checked", "observers_registered", "observer_view_nonempty_checked", "observer_disposed_seen",
+var zvC28Required = []string{"table_nonempty_checked", "table_multi_path_checked", "observers_registered", "observer_view_nonempty_checked",
 	"teardown_with_routes_checked", "teardown_with_observer_view_checked"}
 
 func TestVerifC28(t *testing.T) {
